@@ -75,14 +75,42 @@ Theorem C57_refcount_dead_forever : forall l s, rc_inv s -> rcnt s = 0 -> rwf s 
 Proof. exact rc_dead_forever. Qed.
 Print Assumptions C57_refcount_dead_forever.
 
-(* ---- bridge (Event and RefCounted kinds; the cache kind is covered by the correspondence run
-   and the monitor only, see level_note).  Full statement:
-     forall cfg ops, wf cfg ops = true -> exists obs, run cfg ops = Some obs /\ holds_b cfg ops obs = true *)
-Theorem C57_holds_on_every_model_trace_partial : forall cfg ops,
-  wf cfg ops = true -> cfg = [2] \/ cfg = [3] \/ cfg = [4] ->
+(* ---- bridge: the monitors evaluated on implementation traces accept every model trace, for every
+   kind (timed TimeoutCache [1;tmo], Event [2], RefCounted [3], forced timer window [4]) and every
+   well-formed op list of any length ---- *)
+Theorem C57_holds_on_every_model_trace : forall cfg ops, wf cfg ops = true ->
   exists obs, run cfg ops = Some obs /\ holds_b cfg ops obs = true.
-Proof. exact model_trace_holds_partial. Qed.
-Print Assumptions C57_holds_on_every_model_trace_partial.
+Proof. exact model_trace_holds. Qed.
+Print Assumptions C57_holds_on_every_model_trace.
+
+(* ---- the timed driver semantics (cstep: all due timers complete inside the op; crun = the states
+   behind cexec) is a special interleaving: every state it reaches from the empty cache is reached by
+   a list of fine-grained atomic steps, so the C57_cache_* theorems above apply to the traces the
+   driver produces ... ---- *)
+Theorem C57_timed_step_is_fine_steps : forall c op c' o, cache_inv (cents c) -> cstep c op = Some (c', o) ->
+  exists l, cents c' = xsteps (cents c) l.
+Proof. exact cstep_fine. Qed.
+Print Assumptions C57_timed_step_is_fine_steps.
+
+Theorem C57_timed_trace_is_interleaving : forall tmo ops c', crun (mkcst [] 0 tmo) ops = Some c' ->
+  exists l, cents c' = xsteps [] l.
+Proof. exact timed_reaches_fine. Qed.
+Print Assumptions C57_timed_trace_is_interleaving.
+
+Theorem C57_model_trace_has_states : forall ops c obs, cexec c ops = Some obs -> exists c', crun c ops = Some c'.
+Proof. exact cexec_crun. Qed.
+Print Assumptions C57_model_trace_has_states.
+
+(* ... in particular, at the quiescent points the driver observes: every callback has run at most once
+   and none is outstanding; never for an entry handed out by Remove; exactly once for an entry that
+   expired or was cleared with callbacks; every entry left the cache in exactly one way *)
+Theorem C57_timed_entries : forall tmo ops c' e, crun (mkcst [] 0 tmo) ops = Some c' -> In e (cents c') ->
+  0 <= ecb e <= 1 /\ epend e = false /\
+  (1 <= eret e -> eret e = 1 /\ ecb e = 0) /\
+  (is_expired e = true \/ ewant e = true -> ecb e = 1 /\ eret e = 0) /\
+  eret e + eclr e + b2z (negb (ein e) && is_expired e) = b2z (negb (ein e)).
+Proof. exact timed_entries. Qed.
+Print Assumptions C57_timed_entries.
 
 Example C57_witness :
   (* remove inside the fired-but-not-yet-locked window: the callback never runs *)
